@@ -424,7 +424,16 @@ def step {W : Type} (ops : Ops W) (s : St W) : Step → Except Fault (St W)
   | .pop id => if s.gaveUp id then .error (.reject "pop: key dropped") else .ok (pop s id).1
   | .setWaker id w => if s.gaveUp id then .error (.reject "waker: key dropped") else .ok (setWaker s id w)
   | .cancelToken id => .ok (cancelToken s id).1
-  | .cancelDrop id => if s.gaveUp id then .error (.reject "cancel: key dropped") else .ok (cancelDrop s id).1
+  | .cancelDrop id =>
+    -- the user must still hold the key: not dropped before, not consumed by `pop`
+    if s.gaveUp id || s.keys.slot id == .free then .error (.reject "cancel: no key")
+    else .ok (cancelDrop s id).1
+
+/-- the operation pushed by this step waits for at most one descriptor (true for every operation of
+    compio-driver except `Splice`, the only user of `Decision::wait_for_many`) -/
+def Step.single : Step → Prop
+  | .push _ (.wait args) => args.length ≤ 1
+  | _ => True
 
 def run {W : Type} (ops : Ops W) : St W → List Step → Except Fault (St W)
   | s, [] => .ok s
